@@ -1,0 +1,94 @@
+#  Copyright (c) European Space Agency, 2020.
+#
+#  This file is subject to the terms and conditions defined in file 'LICENCE.txt', which
+#  is part of this Pyxel package. No part of the package, including
+#  this file, may be copied, modified, propagated, or distributed except according to
+#  the terms contained in the file ‘LICENCE.txt’.
+
+"""Optional event trace for external verification tooling.
+
+Nothing in this module is active unless the environment variable
+``PYXEL_VERIF_TRACE`` names a file when Pyxel is imported. With the variable
+unset every hook in the library is a single test of :data:`ENABLED`.
+
+With the variable set, :func:`emit` appends one JSON line per event to that
+file: the event name, a per-process sequence number (taken under the same lock
+as the write, never wall-clock time), the process and thread identifiers, the
+name of the running test if any (``PYTEST_CURRENT_TEST``) and the fields given
+by the call site. Hooks only *read* the state of the library.
+"""
+
+import json
+import os
+import threading
+
+_PATH: str | None = os.environ.get("PYXEL_VERIF_TRACE") or None
+ENABLED: bool = _PATH is not None
+
+_LOCK = threading.Lock()
+_SEQ = 0
+
+
+def emit(event: str, **fields) -> None:
+    """Append one event to the trace file (no-op unless tracing is enabled)."""
+    if not ENABLED:
+        return
+
+    global _SEQ
+    with _LOCK:
+        _SEQ += 1
+        record = {
+            "e": event,
+            "seq": _SEQ,
+            "pid": os.getpid(),
+            "tid": threading.get_ident(),
+            "test": os.environ.get("PYTEST_CURRENT_TEST", ""),
+        }
+        record.update(fields)
+        try:
+            line = json.dumps(record, default=repr)
+            assert _PATH is not None
+            with open(_PATH, "a", encoding="utf-8") as fh:
+                fh.write(line + "\n")
+        except Exception:  # a tracing problem must never change the behaviour
+            pass
+
+
+def digest(array) -> str | None:
+    """Return a short content digest of an array: ``None`` if there is no array,
+    ``'0'`` if it only holds zeros, else a hash of its values (as 64-bit floats)
+    and its shape.
+    """
+    if array is None:
+        return None
+
+    import hashlib
+
+    import numpy as np
+
+    try:
+        values = np.ascontiguousarray(np.asarray(array), dtype=np.float64)
+    except Exception:
+        return "?"
+    if not values.any():
+        return "0"
+
+    h = hashlib.sha1(values.tobytes())
+    h.update(repr(values.shape).encode())
+    return h.hexdigest()[:16]
+
+
+def bucket_digests(detector) -> dict:
+    """Return the digests of the array containers of a detector (read only)."""
+    result: dict[str, str | None] = {}
+    for name in ("photon", "charge", "pixel", "signal", "image"):
+        try:
+            container = getattr(detector, name)
+            if name == "charge":
+                array = container.array
+            else:
+                array = getattr(container, "_array", None)
+            result[name] = digest(array)
+        except Exception:
+            result[name] = "?"
+    return result
